@@ -522,6 +522,14 @@ func x5Window(cls string) (time.Time, time.Time) {
 		return time.Date(2050, 1, 1, 0, 0, 0, 0, time.UTC), time.Date(2061, 12, 31, 23, 59, 59, 0, time.UTC)
 	case "mixed":
 		return time.Date(2049, 12, 31, 23, 59, 59, 0, time.UTC), time.Date(2050, 1, 1, 0, 0, 0, 0, time.UTC)
+	case "utc1950": // the first year of the UTCTime window (YY = 50)
+		return time.Date(1950, 1, 1, 0, 0, 0, 0, time.UTC), time.Date(1950, 12, 31, 23, 59, 59, 0, time.UTC)
+	case "pre1950": // GeneralizedTime below the window, UTCTime at its first second
+		return time.Date(1949, 12, 31, 23, 59, 59, 0, time.UTC), time.Date(1950, 1, 1, 0, 0, 0, 0, time.UTC)
+	case "y2k": // YY = 99 and YY = 00
+		return time.Date(1999, 12, 31, 23, 59, 59, 0, time.UTC), time.Date(2000, 1, 1, 0, 0, 0, 0, time.UTC)
+	case "far": // RFC 5280 4.1.2.5: no well-defined expiration date
+		return time.Date(2049, 1, 1, 0, 0, 0, 0, time.UTC), time.Date(9999, 12, 31, 23, 59, 59, 0, time.UTC)
 	}
 	panic("harness: x509: unknown time class " + cls)
 }
